@@ -112,6 +112,8 @@ from ..servers import make_env
 DELIM = '/'
 DESELECT = b'vf-c11-never-created'
 FRESH = ('fresh',)
+_SAFE_NAME_ATOM = frozenset(
+    'abcdefghijklmnopqrstuvwxyzABCDEFGHIJKLMNOPQRSTUVWXYZ0123456789/_-.')
 _SAFE_PATTERN_ATOM = frozenset(
     'abcdefghijklmnopqrstuvwxyzABCDEFGHIJKLMNOPQRSTUVWXYZ0123456789*%/_-')
 
@@ -186,7 +188,7 @@ def first_is_inbox(name: str) -> bool:
 def shape_suffix(name: str | None) -> str:
     if name is None:
         return ''
-    if '\n' in name:
+    if '\n' in name or '\r' in name:
         return ':newline-in-name'
     if name != name.rstrip():
         return ':trailing-whitespace'
@@ -228,6 +230,17 @@ def wire_pattern(pat: str, rng: random.Random | None) -> bytes:
     enc = gen.modutf7_encode(pat)
     if pat and all(c in _SAFE_PATTERN_ATOM for c in pat) and \
             (rng is None or rng.random() < 0.5):
+        return enc
+    return quote(enc)
+
+
+def wire_name(name: str) -> bytes:
+    """Client spelling of a mailbox name: modified UTF-7 (printable ASCII by
+    construction), as an atom only when it is plainly one, else quoted --
+    parser corner cases of atoms ('}', ']', '~') belong to C18."""
+    enc = gen.modutf7_encode(name)
+    if name and all(c in _SAFE_NAME_ATOM for c in name) \
+            and name.upper() != 'NIL':
         return enc
     return quote(enc)
 
@@ -347,8 +360,17 @@ class Names:
 
     def expect_list(self, ref: str, pat: str, subscribed: bool) \
             -> tuple[set[str], set[str]]:
-        """(must, may) name sets for a LIST/LSUB with a non-empty pattern."""
-        full = ref + pat
+        """(must, may) name sets for a LIST/LSUB with a non-empty pattern.
+        A reference that spells INBOX may be read as written or as ``INBOX``
+        (latitude 5): a name must be returned only if both readings match."""
+        refs = {ref, norm(ref)}
+        res = [self._expect(r + pat, subscribed) for r in sorted(refs)]
+        must = set.intersection(*[x[0] for x in res])
+        may = set.union(*[x[1] for x in res])
+        return must, may
+
+    def _expect(self, full: str, subscribed: bool) \
+            -> tuple[set[str], set[str]]:
         implied = self.implied()
         wild = '*' in full or '%' in full
         must: set[str] = set()
@@ -423,6 +445,8 @@ class Runner:
         self.backend = spec['backend']
         self.seed = spec['seed']
         self.nappend = 0
+        self.rng2 = random.Random(spec['seed'] ^ 0x5eed)
+        self.full_dumps = bool(spec.get('script')) or spec.get('full', False)
         self.used: list[str] = []     # names the program has used so far
 
     # -- wire -----------------------------------------------------------------
@@ -445,7 +469,7 @@ class Runner:
                       rng: random.Random | None) \
             -> list[tuple[str | None, list[bytes], bytes]] | None:
         """[(decoded name | None, attrs, wire name)] or None if refused."""
-        line = verb + b' ' + gen.wire_mailbox(ref) + b' ' + \
+        line = verb + b' ' + wire_name(ref) + b' ' + \
             wire_pattern(pat, rng)
         r = await self.cmd(line)
         if not r.ok:
@@ -468,7 +492,7 @@ class Runner:
     async def observe(self, name: str) -> Any:
         """Dump (messages, uidnext, uidvalidity, ((uid, vfid), ...)) or
         ('refused', CMD, cond)."""
-        w = gen.wire_mailbox(name)
+        w = wire_name(name)
         r = await self.cmd(b'STATUS ' + w + b' (MESSAGES UIDNEXT UIDVALIDITY)')
         if not r.ok:
             return ('refused', 'STATUS', r.cond)
@@ -510,7 +534,10 @@ class Runner:
         if (att.get(b'MESSAGES'), att.get(b'UIDNEXT'),
                 att.get(b'UIDVALIDITY')) != (exists, uidnext, uidval) \
                 or exists != len(msgs):
-            self.ctx.report('status-examine-disagree',
+            self.ctx.report('uidvalidity-unstable' if (
+                att.get(b'MESSAGES'), att.get(b'UIDNEXT')) == (
+                    exists, uidnext) and exists == len(msgs)
+                else 'status-examine-disagree',
                             '%r: STATUS %r, EXAMINE exists=%r uidnext=%r '
                             'uidvalidity=%r, fetched %d' % (
                                 name, att, exists, uidnext, uidval,
@@ -521,7 +548,20 @@ class Runner:
     async def dump_all(self, kind: str, outcome: str,
                        target: str | None) -> None:
         m = self.m
-        for n in sorted(m.real):
+        names = sorted(m.real)
+        if not (self.full_dumps or outcome != 'OK'
+                or kind in ('RENAME', 'DELETE')):
+            # a plain OK step: everything whose content is expected to have
+            # changed, the target, and a sample of two other mailboxes
+            keep = {n for n in names if m.real[n][0] != 'exact'}
+            keep.add(norm(target or ''))
+            rest = [n for n in names if n not in keep]
+            keep.update(self.rng2.sample(rest, min(2, len(rest))))
+            names = [n for n in names if n in keep]
+            self.ctx.count('partial_dump_steps')
+        else:
+            self.ctx.count('full_dump_steps')
+        for n in names:
             exp = m.real[n]
             obs = await self.observe(n)
             if obs and obs[0] == 'refused':
@@ -595,6 +635,45 @@ class Runner:
 
     # -- full LIST / LSUB -----------------------------------------------------
 
+    def fold(self, ent: list[tuple[str | None, list[bytes], bytes]],
+             what: str) -> tuple[dict[str, list[bytes]], list[bytes]]:
+        """Listed names (INBOX spellings folded, latitude 5) -> attributes,
+        and the spellings that are not modified UTF-7.  A ``\\Noselect`` on
+        any spelling of INBOX is reported here: INBOX always exists."""
+        listed: dict[str, list[bytes]] = {}
+        bad: list[bytes] = []
+        m = self.m
+        for dec, attrs, wire in ent:
+            if dec is None:
+                bad.append(wire)
+                continue
+            n = norm(dec)
+            if n == 'INBOX':
+                if dec != 'INBOX':
+                    self.ctx.count('lat_inbox_variant_listed')
+                if b'\\Noselect' in attrs:
+                    variant = any(
+                        first_is_inbox(x) and DELIM in x
+                        and not x.startswith('INBOX/')
+                        for x in set(m.real) | m.implied() | m.subs)
+                    self.ctx.report(
+                        'list-noselect-on-existing' + (
+                            ':inbox-variant-parent' if variant else ''),
+                        '%s lists %r (= INBOX, which exists) as \\Noselect'
+                        % (what, dec), name=dec)
+                if 'INBOX' in listed:
+                    # the server spells a folder 'inbox' as INBOX too: keep
+                    # the selectable line, do not judge the children flags
+                    self.ctx.count('lat_inbox_variant_listed')
+                    keep = listed['INBOX'] if b'\\Noselect' in attrs \
+                        else attrs
+                    listed['INBOX'] = [x for x in keep if x not in (
+                        b'\\HasChildren', b'\\HasNoChildren')]
+                    continue
+            listed[n] = attrs
+        return listed, bad
+
+
     async def check_full(self, kind: str, outcome: str) -> None:
         m = self.m
         ctx = self.ctx
@@ -603,21 +682,10 @@ class Runner:
         if ent is None:
             ctx.report('list-refused', 'LIST "" * refused')
             raise Stop()
-        implied = m.implied()
-        listed: dict[str, list[bytes]] = {}
-        selectable: set[str] = set()
-        extra: list[tuple[str | None, bytes]] = []
-        for dec, attrs, wire in ent:
-            if dec is None:
-                extra.append((None, wire))
-                continue
-            n = norm(dec)
-            if n == 'INBOX' and dec != 'INBOX':
-                ctx.count('lat_inbox_variant_listed')
-                continue
-            listed[n] = attrs
-            if b'\\Noselect' not in attrs:
-                selectable.add(n)
+        listed, bad = self.fold(ent, 'LIST "" *')
+        selectable = {n for n, attrs in listed.items()
+                      if b'\\Noselect' not in attrs}
+        extra: list[tuple[str | None, bytes]] = [(None, w) for w in bad]
         # RENAME INBOX: did the inferiors stay or move? (latitude 4)
         for stay, moved in m.inbox_choices:
             s_in, m_in = stay in selectable, norm(moved) in selectable
@@ -629,6 +697,10 @@ class Runner:
                 m.moved[norm(moved)] = stay
                 if stay in m.subs:
                     m.sub_follow[norm(moved)] = stay
+            elif not s_in and shape_suffix(moved) and not shape_suffix(stay):
+                # reported below as a name LIST omits
+                m.real[norm(moved)] = m.real.pop(stay)
+                m.moved[norm(moved)] = stay
             elif not s_in:
                 ctx.report('rename-lost-inferior',
                            'after RENAME INBOX neither %r nor %r is listed'
@@ -651,6 +723,11 @@ class Runner:
                     ctx.count('lat_parent_real')
                     m.real[n] = FRESH
                     m.adopted.add(n)
+                elif outcome != 'OK':
+                    ctx.report('no-but-state-changed',
+                               '%s answered %s but the hierarchy parent %r is '
+                               'now listed as a selectable mailbox'
+                               % (kind, outcome, n), name=n)
                 else:
                     ctx.report('list-reports-nonexistent-name',
                                '%r is listed as selectable after %s %s but '
@@ -675,7 +752,7 @@ class Runner:
         else:
             for n in missing:
                 if kind == 'RENAME' and n in m.moved and n != norm(
-                        self._last_target or ''):
+                        self._last_target or '') and not shape_suffix(n):
                     ctx.report('rename-lost-inferior',
                                'RENAME moved %r to %r but it is not listed'
                                % (m.moved[n], n), name=n)
@@ -738,7 +815,7 @@ class Runner:
                            % (kind, outcome, n), name=n)
             else:
                 ctx.report('lsub-reports-never-subscribed'
-                           + (':inbox' if n == 'INBOX' else shape_suffix(n)),
+                           + self.alias_suffix(n),
                            '%r is in LSUB "" * after %s but is not '
                            'subscribed' % (n, kind), name=n)
         for n in m.subs:
@@ -756,6 +833,21 @@ class Runner:
                                'omits it (after %s)' % (n, kind), name=n)
             else:
                 ctx.count('lat_lsub_drops_missing')
+
+    def alias_suffix(self, n: str) -> str:
+        """Structural refinement for a name LSUB reports although it is not
+        subscribed: it is INBOX, or it is what a line-oriented store makes of
+        a subscribed name (a line of it / the name minus trailing blanks)."""
+        if n == 'INBOX':
+            return ':inbox'
+        for s in self.m.subs:
+            if s != n and ('\n' in s or '\r' in s) and n in [
+                    x.rstrip() for x in s.replace('\r', '\n').split('\n')]:
+                return ':newline-in-name'
+        for s in self.m.subs:
+            if s != n and s.rstrip() == n:
+                return ':trailing-whitespace'
+        return shape_suffix(n)
 
     def _children(self, listed: dict[str, list[bytes]], verb: str) -> None:
         m = self.m
@@ -855,20 +947,20 @@ class Runner:
                            '%s %r "" answered %r' % (verb, ref, ent))
             return
         must, may = m.expect_list(ref, pat, sub)
-        got: set[str] = set()
-        listed: dict[str, list[bytes]] = {}
-        for dec, attrs, wire in ent:
-            if dec is None:
-                ctx.report('name-roundtrip-changed',
-                           'listed spelling %r is not modified UTF-7'
-                           % (wire,))
-                continue
-            n = norm(dec)
-            if n == 'INBOX' and dec != 'INBOX':
-                ctx.count('lat_inbox_variant_listed')
-                continue
-            got.add(n)
-            listed[n] = attrs
+        if sub:
+            listed: dict[str, list[bytes]] = {}
+            bad = []
+            for dec, attrs, wire in ent:
+                if dec is None:
+                    bad.append(wire)
+                else:
+                    listed[norm(dec)] = attrs
+        else:
+            listed, bad = self.fold(ent, '%s %r %r' % (verb, ref, pat))
+        for wire in bad:
+            ctx.report('name-roundtrip-changed',
+                       'listed spelling %r is not modified UTF-7' % (wire,))
+        got = set(listed)
         prefix = 'lsub' if sub else 'list'
         known = set(m.real) | m.implied() | (m.subs if sub else set())
         for n in sorted(must - got):
@@ -886,7 +978,7 @@ class Runner:
                     % (verb, ref, pat, n), name=n, ref=ref, pattern=pat)
             else:
                 ctx.report('%s-reports-%s' % (
-                    prefix, 'never-subscribed' if sub
+                    prefix, 'never-subscribed' + self.alias_suffix(n) if sub
                     else 'nonexistent-name'),
                     '%s %r %r returns %r' % (verb, ref, pat, n),
                     name=n, ref=ref, pattern=pat)
@@ -1070,7 +1162,7 @@ class Runner:
             if x != 'INBOX' and norm(x) == 'INBOX':
                 ctx.count('lat_inbox_case_arg')
         st = m.status(name)
-        w = gen.wire_mailbox(name)
+        w = wire_name(name)
         truncated = False
         if kind == 'CREATE':
             r = await self.cmd(b'CREATE ' + w)
@@ -1134,10 +1226,7 @@ class Runner:
                 else:
                     ctx.count('subscribe_ok')
             elif st == 'real':
-                ctx.report('existing-name-refused:SUBSCRIBE'
-                           + shape_suffix(n),
-                           'SUBSCRIBE %r answered %r' % (name, r.cond),
-                           name=n)
+                ctx.count('lat_subscribe_existing_refused')
             else:
                 ctx.count('lat_subscribe_missing_no')
         elif kind == 'UNSUBSCRIBE':
@@ -1221,8 +1310,8 @@ class Runner:
         a, b = op[1], op[2]
         na, nb = norm(a), norm(b)
         self._last_target = b
-        r = await self.cmd(b'RENAME ' + gen.wire_mailbox(a) + b' '
-                           + gen.wire_mailbox(b))
+        r = await self.cmd(b'RENAME ' + wire_name(a) + b' '
+                           + wire_name(b))
         ok = r.ok
         stb = m.status(b)
         if nb == 'INBOX':
@@ -1408,13 +1497,14 @@ class C11(Check):
     time_cap = {'quick': 60.0, 'thorough': 600.0}
 
     def cases(self, tier: str, seed: int) -> Iterable[dict[str, Any]]:
-        n = 1500 if tier == 'quick' else 20000
+        n = 1000 if tier == 'quick' else 14000
         rng = random.Random(seed * 7919 + 11)
         for i in range(n):
             yield {'seed': seed * 1_000_003 + i,
                    'backend': rng.choice(['dict', 'dict', 'maildir',
                                           'maildir-fs']),
-                   'nsteps': rng.randint(4, 20)}
+                   'nsteps': rng.randint(4, 20),
+                   'full': rng.random() < 0.2}
 
     def run_case(self, spec: dict[str, Any]) -> dict[str, Any]:
         random.seed(spec['seed'])
